@@ -98,6 +98,9 @@ structure Cfg where
   created) / its `upload_part` or `complete_multipart_upload` call raises (nothing is recorded) -/
   faultCreate : Nat → Bool := fun _ => false
   faultCall : Nat → Bool := fun _ => false
+  /-- crash point: thread `t` dies right after the service has carried out its `upload_part` /
+  `complete_multipart_upload` call, before it returns the record (the task's result is lost) -/
+  crashCall : Nat → Bool := fun _ => false
 
 def State.goto (s : State) (t : Nat) (p : PC) : State :=
   { s with pc := fun i => if i = t then p else s.pc i }
@@ -151,6 +154,10 @@ def step (cfg : Cfg) (s : State) (t : Nat) : State :=
   | .readId => s.goto t (.call s.uploadId)
   | .call id =>
     if cfg.faultCall t then s.goto t .faulted
+    else if cfg.crashCall t then
+      match cfg.kind t with
+      | .write p => { s with calls := .upload p id :: s.calls }.goto t .faulted
+      | .fin => { s with calls := .complete id :: s.calls }.goto t .faulted
     else
       match cfg.kind t with
       | .write p => { s with calls := .upload p id :: s.calls }.goto t .done
@@ -159,6 +166,19 @@ def step (cfg : Cfg) (s : State) (t : Nat) : State :=
   | .done => s
   | .failed => s
   | .faulted => s
+
+/-- Crash point inside the publication window: thread `t` dies right after the service has created the upload
+(`create_multipart_upload` returned, 114) and before `self.uploadId = uploadId` (116); the exception leaves the
+`with` block, the lock is released.  Kept outside `step`: the `*_once` theorems do not survive it
+(`local_crash_before_setid_cex`). -/
+def stepCrashC (crashC : Nat → Bool) (cfg : Cfg) (s : State) (t : Nat) : State :=
+  match s.pc t with
+  | .create =>
+    if crashC t then
+      ({ s with creates := s.creates + 1, calls := .create (s.creates + 1) :: s.calls }.setHolder (s.mylock t) none).goto t
+        .faulted
+    else step cfg s t
+  | _ => step cfg s t
 
 /-- A schedule is the list of thread ids in the order in which they are given a step. -/
 def runFrom (cfg : Cfg) (s : State) (sched : List Nat) : State := sched.foldl (step cfg) s
@@ -243,6 +263,9 @@ structure Cfg where
   /-- `_safe_get` (222-226) swallows every exception of `Variable.get(timeout=0.1)`: thread `t`'s FIRST
   read (280, outside the lock) times out although the variable may be set, and yields `None` -/
   spurGet1 : Nat → Bool := fun _ => false
+  /-- crash point, as in `Local.Cfg`: the worker dies right after the service carried out the thread's
+  `upload_part` / `complete_multipart_upload` call; the record is lost, dask re-runs the task elsewhere -/
+  crashCall : Nat → Bool := fun _ => false
 
 def State.goto (s : State) (t : Nat) (p : PC) : State :=
   { s with pc := fun i => if i = t then p else s.pc i }
@@ -300,6 +323,10 @@ def step (cfg : Cfg) (s : State) (t : Nat) : State :=
   | .readId => s.goto t (.call (s.wid w))
   | .call id =>
     if cfg.faultCall t then s.goto t .faulted
+    else if cfg.crashCall t then
+      match cfg.kind t with
+      | .write p => { s with calls := .upload p id :: s.calls }.goto t .faulted
+      | .fin => { s with calls := .complete id :: s.calls }.goto t .faulted
     else
       match cfg.kind t with
       | .write p => { s with calls := .upload p id :: s.calls }.goto t .done
@@ -324,6 +351,49 @@ def stepSpur2 (spur2 : Nat → Bool) (cfg : Cfg) (s : State) (t : Nat) : State :
 
 def runSpur2 (spur2 : Nat → Bool) (cfg : Cfg) (s : State) (sched : List Nat) : State :=
   sched.foldl (stepSpur2 spur2 cfg) s
+
+/-- Crash point inside the PUBLICATION WINDOW: the worker of thread `t` dies right after the service has created
+the upload (114) and before `shared_state.set(mpu.uploadId)` (302); the scheduler frees the distributed lock
+when the dead worker's lease expires.  Kept outside `step` (`dist_crash_before_publish_cex`). -/
+def stepFx (spur2 crashC : Nat → Bool) (cfg : Cfg) (s : State) (t : Nat) : State :=
+  match s.pc t with
+  | .create =>
+    if crashC t then
+      { s with creates := s.creates + 1, calls := .create (s.creates + 1) :: s.calls, lock := none }.goto t .faulted
+    else step cfg s t
+  | _ => stepSpur2 spur2 cfg s t
+
+def runFx (spur2 crashC : Nat → Bool) (cfg : Cfg) (s : State) (sched : List Nat) : State :=
+  sched.foldl (stepFx spur2 crashC cfg) s
+
+/-- the program points between the creation of the upload and the publication of its id -/
+def inWindow : PC → Bool
+  | .setId _ | .readForVar | .setVar _ => true
+  | _ => false
+
+/-- A worker dies with thread `t` at ANY program point: the thread never moves again; if it held the distributed
+lock, the scheduler frees it (lease expiry).  Nothing else changes - in particular the worker's copy and the shared
+variable keep what they held. -/
+def crash (s : State) (t : Nat) : State :=
+  { s with lock := if s.lock = some t then none else s.lock }.goto t .faulted
+
+/-- a run with crashes -/
+inductive Ev where
+  | step (t : Nat)
+  | crash (t : Nat)
+  deriving DecidableEq, Repr
+
+def applyEv (cfg : Cfg) (s : State) : Ev → State
+  | .step t => step cfg s t
+  | .crash t => crash s t
+
+def runEv (cfg : Cfg) (s : State) (evs : List Ev) : State := evs.foldl (applyEv cfg) s
+
+/-- no crash event hits a thread inside the publication window -/
+def crashesOutsideWindow (cfg : Cfg) : State → List Ev → Bool
+  | _, [] => true
+  | s, .step t :: rest => crashesOutsideWindow cfg (step cfg s t) rest
+  | s, .crash t :: rest => !inWindow (s.pc t) && crashesOutsideWindow cfg (crash s t) rest
 
 def enabled (s : State) (t : Nat) : Bool :=
   match s.pc t with
@@ -372,6 +442,7 @@ structure Cfg where
   faultCreate : Nat → Bool := fun _ => false
   faultCall : Nat → Bool := fun _ => false
   spurGet1 : Nat → Bool := fun _ => false
+  crashCall : Nat → Bool := fun _ => false
 
 def State.goto (s : State) (t : Nat) (p : PC) : State :=
   { s with pc := fun i => if i = t then p else s.pc i }
@@ -428,6 +499,10 @@ def step (cfg : Cfg) (s : State) (t : Nat) : State :=
   | .readId => s.goto t (.call (s.wid w))
   | .call id =>
     if cfg.faultCall t then s.goto t .faulted
+    else if cfg.crashCall t then
+      match cfg.kind t with
+      | .write p => { s with calls := .upload p id :: s.calls }.goto t .faulted
+      | .fin => { s with calls := .complete id :: s.calls }.goto t .faulted
     else
       match cfg.kind t with
       | .write p => { s with calls := .upload p id :: s.calls }.goto t .done
